@@ -28,8 +28,10 @@ type fakeKV struct {
 
 func newFakeKV() *fakeKV { return &fakeKV{m: map[string][]byte{}} }
 
-func (f *fakeKV) RunTransaction(ctx context.Context, fn transactor.TransactionFn) error { return fn(ctx) }
-func (f *fakeKV) DB(context.Context) badger.QueryManager                                  { return f }
+func (f *fakeKV) RunTransaction(ctx context.Context, fn transactor.TransactionFn) error {
+	return fn(ctx)
+}
+func (f *fakeKV) DB(context.Context) badger.QueryManager { return f }
 func (f *fakeKV) Set(key, val []byte) error {
 	f.m[string(key)] = append([]byte{}, val...)
 	return nil
